@@ -33,6 +33,8 @@ func toMultihash(ctx context.Context, services coreiface.CoreAPI, log *IPFSLog) 
 		return cid.Undef, errmsg.ErrEmptyLogSerialization
 	}
 
+	verifYield("toMultihash:checked")
+
 	return log.io.Write(ctx, services, log.ToJSONLog(), nil)
 }
 
